@@ -350,67 +350,144 @@ def stat_case(rng, n, ntask, ints):
     return {"data": data.tolist(), "parts": parts, "res": res}
 
 
-def hdf5_case(rng, workdir, n, ntask, multi, with_op):
-    """save_to_hdf5(samples, mean, std) and what NumPy says the contents should be."""
+OPS = ["none", "half", "square", "exp"]      # identity, linear, and two non-linear operators
+FLAGS = [(sa, me, sd) for sa in (False, True) for me in (False, True) for sd in (False, True) if (sa or me or sd)]
+
+
+def make_op(name, dom):
+    import nifty.cl as ift
+    if name == "none":
+        return None
+    if name == "half":
+        return ift.ScalingOperator(dom, 0.5)
+    if name == "square":
+        return ift.ScalingOperator(dom, 1.) ** 2
+    if name == "exp":
+        return ift.ScalingOperator(dom, 0.125).exp()
+    raise ValueError(name)
+
+
+def np_op(name, x):
+    x = np.asarray(x, dtype=np.float64)
+    return {"none": lambda v: v, "half": lambda v: 0.5 * v, "square": lambda v: v ** 2,
+            "exp": lambda v: np.exp(0.125 * v)}[name](x)
+
+
+def hdf5_case(rng, workdir, n, ntask, multi, opname, kind="plain"):
+    """save_to_hdf5 for EVERY combination of the samples/mean/std flags, sample_stat(op) and
+    average(op), for one operator (identity, linear or non-linear), plain or residual list."""
     import h5py
     import nifty.cl as ift
     os.makedirs(workdir, exist_ok=True)
-    fn_h5 = os.path.join(workdir, "stats.h5")
-    if os.path.exists(fn_h5):
-        os.remove(fn_h5)
-    ids = [int(x) for x in rng.integers(-40, 40, size=n)]
-    parts = split_random(rng, ids, ntask)
+    ids = [int(x) for x in rng.integers(-6, 7, size=n)]
+    negs = [bool(x) for x in rng.integers(0, 2, size=n)]
+    mean_id = int(rng.integers(-3, 4))
+    parts = split_random(rng, list(range(n)), ntask)
     dom = _doms(multi)
-    op = None
-    if with_op:
-        op = ift.ScalingOperator(dom, 0.5)
-
-    def fn(comm):
-        rank = 0 if comm is None else comm.Get_rank()
-        sl = ift.SampleList([mk_field(k, multi) for k in parts[rank]], comm=comm, domain=dom)
-        sl.save_to_hdf5(fn_h5, op=op, samples=True, mean=True, std=True, overwrite=True)
-        m, v = sl.sample_stat(op)
-        return [flat(m), flat(v)]
+    op = make_op(opname, dom)
+    files = {fl: os.path.join(workdir, "stats_%d%d%d.h5" % tuple(int(x) for x in fl)) for fl in FLAGS}
+    for f in files.values():
+        if os.path.exists(f):
+            os.remove(f)
 
     def flat(f):
         if isinstance(f, ift.MultiField):
             return [float(x) for k in sorted(f.keys()) for x in np.asarray(f[k].asnumpy()).ravel()]
         return [float(x) for x in np.asarray(f.asnumpy()).ravel()]
 
+    def fn(comm):
+        rank = 0 if comm is None else comm.Get_rank()
+        mine = parts[rank]
+        if kind == "plain":
+            sl = ift.SampleList([mk_field(ids[i], multi) for i in mine], comm=comm, domain=dom)
+        else:
+            sl = ift.ResidualSampleList(mk_field(mean_id, multi), [mk_field(ids[i], multi) for i in mine],
+                                        [negs[i] for i in mine], comm=comm)
+        for fl in FLAGS:
+            sl.save_to_hdf5(files[fl], op=op, samples=fl[0], mean=fl[1], std=fl[2], overwrite=True)
+        m, v = sl.sample_stat(op)
+        a = sl.average(op)
+        return [flat(m), flat(v), flat(a)]
+
     def h5flat(g):
         if isinstance(g, h5py.Dataset):
             return [float(x) for x in np.asarray(g[()]).ravel()]
         return [x for k in sorted(g.keys()) for x in h5flat(g[k])]
-    res = run_tasks(ntask, fn)
-    out = {"ids": ids, "parts": parts, "multi": multi, "with_op": with_op, "res": res, "file": None}
+    with warnings.catch_warnings():
+        warnings.simplefilter("ignore")
+        res = run_tasks(ntask, fn)
+    # the inputs of the operator, written down independently of NIFTy
+    if kind == "plain":
+        xin = [expected_vals(k, multi) for k in ids]
+    else:
+        m0 = expected_vals(mean_id, multi)
+        xin = [[a - b if ng else a + b for a, b in zip(m0, expected_vals(k, multi))] for k, ng in zip(ids, negs)]
+    out = {"ids": ids, "negs": negs, "mean_id": mean_id, "parts": parts, "multi": multi, "op": opname, "kind": kind,
+           "xin": xin, "res": res, "files": None}
     if all(r[0] == "ok" for r in res):
-        with h5py.File(fn_h5, "r") as f:
-            out["file"] = {"samples": [h5flat(f["samples"][str(i)]) for i in range(n)],
-                           "mean": h5flat(f["stats"]["mean"]), "std": h5flat(f["stats"]["standard deviation"]),
-                           "nsamples_in_file": len(f["samples"].keys())}
+        out["files"] = {}
+        for fl, fname in files.items():
+            with h5py.File(fname, "r") as f:
+                c = {"groups": sorted(f.keys())}
+                if "samples" in f:
+                    c["samples"] = [h5flat(f["samples"][str(i)]) for i in range(len(f["samples"].keys()))]
+                if "stats" in f:
+                    c["stats_keys"] = sorted(f["stats"].keys())
+                    if "mean" in f["stats"]:
+                        c["mean"] = h5flat(f["stats"]["mean"])
+                    if "standard deviation" in f["stats"]:
+                        c["std"] = h5flat(f["stats"]["standard deviation"])
+                out["files"]["%d%d%d" % tuple(int(x) for x in fl)] = c
+    shutil.rmtree(workdir, ignore_errors=True)
     return out
 
 
 def hdf5_failure(o):
+    """File contents and in-memory statistics against NumPy mean / unbiased variance of the
+    individually evaluated operator outputs, for every flag combination."""
     n = len(o["ids"])
+    tag = "%s list, op=%s, n=%d, %d task(s)" % (o["kind"], o["op"], n, len(o["parts"]))
     if any(r[0] != "ok" for r in o["res"]):
-        return "save_to_hdf5 / sample_stat raised: %r" % [r for r in o["res"] if r[0] != "ok"][:1]
-    scale = 0.5 if o["with_op"] else 1.0
-    want = np.array([[scale * x for x in expected_vals(k, o["multi"])] for k in o["ids"]])
+        return "%s: save_to_hdf5 / sample_stat / average raised: %r" % (tag, [r for r in o["res"] if r[0] != "ok"][:1])
+    want = np.array([np_op(o["op"], x) for x in o["xin"]])
     wm = want.mean(axis=0)
     wv = want.var(axis=0, ddof=1) if n > 1 else np.zeros_like(wm)
-    f = o["file"]
-    tol = 1e-12 * (1.0 + np.abs(want).max() ** 2)
-    if f["nsamples_in_file"] != n or not np.array_equal(np.array(f["samples"]), want):
-        return "samples in the HDF5 file differ from the operator outputs"
-    if np.abs(np.array(f["mean"]) - wm).max() > tol:
-        return "HDF5 mean %r is not the arithmetic mean %r" % (f["mean"], wm.tolist())
-    if np.abs(np.array(f["std"]) - np.sqrt(wv)).max() > tol:
-        return "HDF5 standard deviation %r is not sqrt(unbiased variance) %r" % (f["std"], np.sqrt(wv).tolist())
+    tol = 1e-11 * (1.0 + np.abs(want).max() ** 2)
     for r in o["res"]:
-        if np.abs(np.array(r[1][0]) - wm).max() > tol or np.abs(np.array(r[1][1]) - wv).max() > tol:
-            return "sample_stat %r is not (mean, unbiased variance) %r" % (r[1], [wm.tolist(), wv.tolist()])
+        m, v, a = (np.array(x) for x in r[1])
+        if np.abs(m - wm).max() > tol or np.abs(v - wv).max() > tol:
+            return "%s: sample_stat(op) %r is not (mean, unbiased variance) of the operator outputs %r" % (tag, [m.tolist(), v.tolist()], [wm.tolist(), wv.tolist()])
+        if np.abs(a - wm).max() > tol:
+            return "%s: average(op) %r is not the mean of the operator outputs %r" % (tag, a.tolist(), wm.tolist())
+    for fl in FLAGS:
+        key = "%d%d%d" % tuple(int(x) for x in fl)
+        c = o["files"][key]
+        what = "%s, samples=%s mean=%s std=%s" % ((tag,) + fl)
+        exp_groups = (["samples"] if fl[0] else []) + (["stats"] if (fl[1] or fl[2]) else [])
+        if c["groups"] != exp_groups:
+            return "%s: HDF5 groups %r, expected %r" % (what, c["groups"], exp_groups)
+        if fl[0]:
+            if len(c["samples"]) != n or np.abs(np.array(c["samples"]) - want).max() > tol:
+                return "%s: samples in the file differ from the operator outputs" % what
+        if fl[1] or fl[2]:
+            exp_keys = (["mean"] if fl[1] else []) + (["standard deviation"] if fl[2] else [])
+            if c["stats_keys"] != exp_keys:
+                return "%s: stats entries %r, expected %r" % (what, c["stats_keys"], exp_keys)
+        if fl[1] and np.abs(np.array(c["mean"]) - wm).max() > tol:
+            return "%s: stats/mean %r is not the arithmetic mean of the operator outputs %r" % (what, c["mean"], wm.tolist())
+        if fl[2] and np.abs(np.array(c["std"]) - np.sqrt(wv)).max() > tol:
+            return "%s: stats/standard deviation %r is not sqrt(unbiased variance) %r" % (what, c["std"], np.sqrt(wv).tolist())
     return None
+
+
+def hdf5_args(rng, seed, i):
+    """Every operator and both list kinds are visited in turn; sizes/tasks random."""
+    return {"n": int(rng.integers(2, 6)) if i % 7 else 1, "ntask": int(rng.integers(1, 4)), "multi": bool((i // 4) % 2),
+            "op": OPS[i % 4], "lkind": "plain" if (i // 2) % 2 == 0 else "resid", "seed": [int(seed), 2626, i]}
+
+
+def run_hdf5(args, workdir):
+    return hdf5_case(np.random.default_rng(args["seed"]), workdir, args["n"], args["ntask"], args["multi"], args["op"], args["lkind"])
 
 
 def stat_failure(o):
@@ -456,6 +533,7 @@ class C26(C.Check):
     def __init__(self):
         self.hist = []
         self.stats = []
+        self.h5 = []
 
     def translate(self, ctx):
         from tr import c26_gen
@@ -467,7 +545,7 @@ class C26(C.Check):
         from nifty.cl.utilities import shareRange
         from nifty.cl.minimization.sample_list import _consecutive_length
         rng = ctx.rng(26)
-        work = os.path.join(ctx.run_dir(), "fs")
+        work = os.path.join(ctx.run_dir(), "fs_p%d" % os.getpid())
         hs = [c["history"] for c in ctx.corpus() if "history" in c]
         nh = 30 if ctx.quick else 200
         for i in range(nh):
@@ -500,6 +578,35 @@ class C26(C.Check):
                 xs = C.clist([C.cfloat(row[px]) for row in o["data"]])
                 checks.append("stat_ok %s %s %s && avg_ok %s %s" % (xs, C.cfloat(m[px]), C.cfloat(v[px]), xs, C.cfloat(a[px])))
                 where.append(("stat", i, px))
+        # HDF5 export / sample_stat(op) / average(op): every flag combination, identity, linear and
+        # non-linear operators; bit for bit against the model fed with the operator outputs that
+        # the export itself wrote (samples group of the all-flags file)
+        self.h5 = []
+        nh5 = 8 if ctx.quick else 48
+        work5 = os.path.join(ctx.run_dir(), "h5_p%d" % os.getpid())
+        for i in range(nh5):
+            args = hdf5_args(rng, ctx.seed, i)
+            o = run_hdf5(args, work5)
+            self.h5.append((o, args))
+            if o["files"] is None:
+                checks.append("false")
+                where.append(("hdf5", i, "raised"))
+                continue
+            outs = np.array(o["files"]["111"]["samples"])
+            m, v, a = o["res"][0][1]
+            for px in range(outs.shape[1]):
+                xs = C.clist([C.cfloat(float(x)) for x in outs[:, px]])
+                t = ["stat_ok %s %s %s" % (xs, C.cfloat(m[px]), C.cfloat(v[px])), "avg_ok %s %s" % (xs, C.cfloat(a[px]))]
+                for key in ("010", "110"):        # mean without std: average(op)
+                    t.append("avg_ok %s %s" % (xs, C.cfloat(o["files"][key]["mean"][px])))
+                for key in ("011", "111"):        # with std: sample_stat(op)
+                    fm, fs_ = o["files"][key]["mean"][px], o["files"][key]["std"][px]
+                    t.append("stat_ok %s %s %s" % (xs, C.cfloat(fm), C.cfloat(v[px])))
+                    t.append(C.cbool(float(np.sqrt(v[px])) == fs_))
+                for key in ("001", "101"):
+                    t.append(C.cbool(float(np.sqrt(v[px])) == o["files"][key]["std"][px]))
+                checks.append(" && ".join("(%s)" % x for x in t))
+                where.append(("hdf5", i, px))
         # translated helpers, directly
         nsr = 0
         for nwork in range(0, 9):
@@ -517,10 +624,12 @@ class C26(C.Check):
                 o = "(Raise ValueError)"
             checks.append("conslen_ok %s %s" % (C.clist([C.cz(x) for x in lst]), o))
             where.append(("consecutive_length", lst, 0))
-        bad = C.eval_cases(self.prop, "corr", HEADER, checks)
+        bad = C.eval_cases(self.prop, "corr_p%d" % os.getpid(), HEADER, checks)
         for i in bad[:4]:
             w = where[i]
             det = {"where": list(map(str, w)), "check": checks[i][:1500]}
+            if w[0] == "hdf5":
+                det["case"] = self.h5[w[1]][1]
             if w[0] == "history":
                 det["history"] = self.hist[w[1]][0]
                 det["step"] = self.hist[w[1]][1][w[2]]
@@ -535,10 +644,12 @@ class C26(C.Check):
                 kinds[key] = kinds.get(key, 0) + 1
         res.coverage.update({
             "evaluations": len(checks), "distinct_nontrivial": distinct,
-            "rule": "history = stale files + 3-8 save/load steps (lengths 0-6, 1-4 saving tasks with arbitrary distribution, 1-5 loading tasks, plain/residual, Field/MultiField, overwrite on/off); non-trivial = contains a save distributed over more than one task; distinct by (kind, multi, per-step task counts, number of stale files).  Plus %d sample_stat/average cases x 3 pixels (bit-exact), %d shareRange and consecutive_length cases" % (ns, nsr),
+            "rule": "history = stale files + 3-8 save/load steps (lengths 0-6, 1-4 saving tasks with arbitrary distribution, 1-5 loading tasks, plain/residual, Field/MultiField, overwrite on/off); non-trivial = contains a save distributed over more than one task; distinct by (kind, multi, per-step task counts, number of stale files).  Plus %d sample_stat/average cases x 3 pixels (bit-exact), %d HDF5 cases (each: all 7 samples/mean/std flag combinations, operator none/linear/square/exp, plain/residual, 1-3 tasks; file contents bit-exact against the model fed with the exported operator outputs), %d shareRange and consecutive_length cases" % (ns, nh5, nsr),
             "samples": [{"history": self.hist[k][0]} for k in range(min(2, len(self.hist)))],
             "input_distribution": {"histories": len(self.hist), "steps": nsteps, "step_outcomes": kinds,
-                                   "stat_cases": ns, "shareRange_cases": nsr},
+                                   "stat_cases": ns, "shareRange_cases": nsr,
+                                   "hdf5_cases": nh5, "hdf5_ops": sorted({a["op"] for _, a in self.h5}),
+                                   "hdf5_exports": nh5 * len(FLAGS)},
             "disagreements": len(bad), "exhaustive": False,
         })
         return bad
@@ -557,18 +668,22 @@ class C26(C.Check):
             if f:
                 res.add_failing({"fn": "sample_stat/average"}, f, {"kind": "stat", "data": o["data"], "parts": o["parts"]})
         rng = ctx.rng(2626)
-        work = os.path.join(ctx.run_dir(), "h5")
-        nh5 = (6 if ctx.quick else 40) * budget
-        for i in range(nh5):
-            nn = int(rng.integers(1, 7))
-            args = {"n": nn, "ntask": int(rng.integers(1, 4)), "multi": bool(i % 2), "with_op": bool(i % 3 == 0), "seed": [ctx.seed, 2626, i]}
-            o = hdf5_case(np.random.default_rng(args["seed"]), work, args["n"], args["ntask"], args["multi"], args["with_op"])
+        for o, args in self.h5:
             n += 1
             f = hdf5_failure(o)
             if f:
-                res.add_failing({"fn": "save_to_hdf5/sample_stat"}, f, {"kind": "hdf5", **args})
+                res.add_failing({"fn": "save_to_hdf5/sample_stat/average", "op": args["op"]}, f, {"kind": "hdf5", **args})
+        if budget > 1:
+            work = os.path.join(ctx.run_dir(), "h5_p%d" % os.getpid())
+            for i in range(16 * budget):
+                args = hdf5_args(rng, ctx.seed + 1000, i)
+                n += 1
+                f = hdf5_failure(run_hdf5(args, work))
+                if f:
+                    res.add_failing({"fn": "save_to_hdf5/sample_stat/average", "op": args["op"]}, f, {"kind": "hdf5", **args})
+                    break
         if budget > 1 and not res.failing:
-            work2 = os.path.join(ctx.run_dir(), "fs2")
+            work2 = os.path.join(ctx.run_dir(), "fs2_p%d" % os.getpid())
             for i in range(120):
                 h = gen_history(rng, 9000 + i, int(rng.integers(3, 9)))
                 steps = run_history(h, work2)
@@ -591,11 +706,10 @@ class C26(C.Check):
     def replay(self, ctx, rp):
         i = rp["input"]
         if i["kind"] == "history":
-            steps = run_history(i["history"], os.path.join(ctx.run_dir(), "replay"))
+            steps = run_history(i["history"], os.path.join(ctx.run_dir(), "replay_p%d" % os.getpid()))
             return bool(direct_failures(i["history"], steps))
         if i["kind"] == "hdf5":
-            o = hdf5_case(np.random.default_rng(i["seed"]), os.path.join(ctx.run_dir(), "replay_h5"), i["n"], i["ntask"], i["multi"], i["with_op"])
-            return hdf5_failure(o) is not None
+            return hdf5_failure(run_hdf5(i, os.path.join(ctx.run_dir(), "replay_h5_p%d" % os.getpid()))) is not None
         if i["kind"] == "stat":
             import nifty.cl as ift
             dom = ift.RGSpace(3)
